@@ -71,6 +71,8 @@ def ty_str(t):
         return t
     if t[0] == "list":
         return f"(list {ty_str(t[1])})"
+    if t[0] == "opt":
+        return f"(option {ty_str(t[1])})"
     if t[0] == "tuple":
         return "(" + " * ".join(ty_str(x) for x in t[1]) + ")"
     if t[0] == "fn":
